@@ -6,7 +6,7 @@ import re
 from facts import find_hir, strip
 
 LEVEL = "other"
-CRATES_QUICK = ["dmntk_model_evaluator", "dmntk_model", "dmntk_feel", "dmntk_feel_evaluator"]
+CRATES_QUICK = ["dmntk_model_evaluator", "dmntk_model", "dmntk_feel", "dmntk_feel_evaluator", "dmntk_feel_parser"]
 CRATES_THOROUGH = None
 ME = "dmntk_model_evaluator::"
 B = ME + "builders::"
@@ -65,121 +65,84 @@ def run(F, rep, tier):
     invocation_rule(F, rep)
     # boxed decision tables are one of the composed expression kinds: their hit-policy rules (C03) and the coercion of every invocable's result to
     # its declared output type (R11.3 sinks are part of C11) are the neighbouring properties; the decision-table rules are re-evaluated here as premises
-    from props import c03
+    from props import c03, c13
     expl = rep.explanation
     c03.run(F, rep, tier)
-    rep.explanation = expl + " The decision-table rules of C03 (R03.x) are re-evaluated as premises."
+    # boxed contexts, invocations, function definitions and relations push / pop the scope they are given: each must leave it as found (R13.1 on the builders)
+    c13.scope_neutral_premise(F, rep, "dmntk_model_evaluator", 8)
+    rep.explanation = expl + " The decision-table rules of C03 (R03.x) and the scope-neutrality rule of C13 (R13.1, model-evaluator bodies) are re-evaluated as premises."
 
 
 # ======================================================================================================
 def decision_wiring(F, rep):
     r1 = rep.rule("R04.1", "decision: references from required knowledge / decisions / inputs reach the knowledge-model + decision-service, decision and input-data evaluators respectively")
-    r2 = rep.rule("R04.2", "decision: logic context = required inputs zip (knowledge & decision results overwritten by the caller's inputs); the caller's input context never enters it wholesale")
+    r2 = rep.rule("R04.2", "decision: the scope of the logic receives the values of required inputs, knowledge and decisions, and the caller's input context only through overwrite / the required evaluators")
     name = B + "decision::build_decision_evaluator"
     h = F.hir.get(name)
     if h is None:
         rep.missing_anchor(r1, name)
         return
-    # which vector collects which requirement kind
-    vec_kind = {}
-    for c, par in find_hir(h["body"], lambda x: x.get("k") == "MethodCall" and x.get("method") in ("push", "extend", "insert") and "Vec" in (x.get("callee") or "")):
-        ln = local_name(c["recv"])
-        acc = enclosing_accessor(par)
-        if ln and acc:
-            vec_kind.setdefault(ln, set()).add(acc)
-    # let v: Vec<_> = requirements.iter().filter_map(|r| r.required_X()).collect()
-    for st, _ in find_hir(h["body"], lambda x: x.get("k") == "LetStmt" and "e" in x and x["p"].get("k") == "Bind"):
-        accs = {mc["method"] for mc, _ in find_hir(st["e"], lambda x: x.get("k") == "MethodCall" and x.get("method") in REQUIRED)}
-        if accs and find_hir(st["e"], lambda x: x.get("k") == "MethodCall" and x.get("method") == "collect"):
-            vec_kind.setdefault(st["p"]["name"], set()).update(accs)
-    # which vector is iterated for which consumer (inside the evaluator closure)
-    consumed = {}
-    sites = 0
-    for c, par in find_hir(h["body"], lambda x: x.get("k") in ("MethodCall", "Call") and (x.get("callee") or "") in CONSUMERS):
-        sites += 1
-        kind = CONSUMERS[c["callee"]]
-        src = None
-        for p in reversed(par):
-            if p.get("k") == "MethodCall" and p.get("method") in ("for_each", "map", "filter_map", "try_for_each", "fold"):
-                src = local_name(p["recv"])
-                break
-            if p.get("k") == "Loop" or (p.get("k") == "Match" and p.get("src") == "ForLoopDesugar"):
-                it = p.get("e")
-                if it is not None:
-                    for a in strip(it).get("args", []) or [it]:
-                        src = src or local_name(a)
-                if src:
-                    break
-        consumed.setdefault(src, set()).add(kind)
-    rep.floor(r1, "evaluator call sites in the decision evaluator", sites, 4)
-    ok_all = True
-    for acc, want in REQUIRED.items():
-        vecs = [v for v, ks in vec_kind.items() if acc in ks]
+    # label propagation over MIR: labels are born at the required_*() accessors and read at the identifier argument of the evaluators
+    import taint
+    accs = {"required_knowledge", "required_decision", "required_input"}
+    tt = taint.Taint(F, is_source=lambda p: p.split("::")[-1] if p.split("::")[-1] in accs and "dmntk_model" in p else None,
+                     is_sink=lambda p: (CONSUMERS[p], [1]) if p in CONSUMERS else None)
+    tt.analyse(name)
+    sites = sum(len(v) for k, v in tt.sink_sites.items())
+    rep.floor(r1, "evaluator call sites reached from the decision evaluator", sites, 4)
+    rep.analysed["R04.1 bodies analysed"] = len(tt.analysed)
+    for acc, want in sorted(REQUIRED.items()):
         key = "wiring:%s" % acc
-        if not vecs:
-            rep.violation(r1, key, "no vector collects the references of %s()" % acc, FILE_DEC)
-            ok_all = False
-            continue
-        got = set()
-        for v in vecs:
-            got |= consumed.get(v, set())
-        mixed = [v for v in vecs if len(vec_kind[v]) > 1]
-        if mixed:
-            rep.violation(r1, key, "the vector %s collects references of several requirement kinds %s" % (mixed[0], sorted(vec_kind[mixed[0]])), FILE_DEC)
-            ok_all = False
-        elif got != want:
-            rep.violation(r1, key, "references from %s() are handed to %s; the requirement graph prescribes %s" % (acc, sorted(got) or "no evaluator", sorted(want)), FILE_DEC)
-            ok_all = False
+        got = {kind for (kind, i), labels in tt.sinks.items() if acc in labels}
+        if got == want:
+            rep.ok(r1, key, "%s() -> %s" % (acc, sorted(got)))
         else:
-            rep.ok(r1, key, "%s -> %s" % (vecs, sorted(got)))
-    # ---------------- R04.2 context composition inside the evaluator closure
-    clos = [c for c, _ in find_hir(h["body"], lambda x: x.get("k") == "Closure" and len(x.get("params", [])) == 3)]
-    if not clos:
-        rep.missing_anchor(r2, "evaluator closure (input, model evaluator, output) in build_decision_evaluator")
+            rep.violation(r1, key, "references from %s() reach the identifier argument of %s; the requirement graph prescribes %s" % (acc, sorted(got) or "no evaluator", sorted(want)), FILE_DEC)
+    for (kind, i), labels in sorted(tt.sinks.items()):
+        allowed = {a for a, w in REQUIRED.items() if kind in w}
+        key = "consumer:%s" % kind
+        if labels and not labels <= allowed:
+            rep.violation(r1, key, "the %s evaluator is run for identifiers taken from %s; only %s may feed it" % (kind, sorted(labels), sorted(allowed)), FILE_DEC)
+        else:
+            rep.ok(r1, key, "fed by %s" % sorted(labels))
+    # ---------------- R04.2 what may reach the scope of the decision logic (label propagation with sanitisers)
+    evals = [n for n, b in F.bodies.items() if b.get("kind") == "closure" and n.startswith(name + "::{closure") and b.get("parent") == name and b["argc"] == 4
+             and "FeelContext" in F.ty(b, b["locals"][2]) and F.ty(b, b["locals"][4]).startswith("&mut") and "FeelContext" in F.ty(b, b["locals"][4])]
+    if len(evals) != 1:
+        rep.missing_anchor(r2, "the evaluator closure (input context, model evaluator, &mut output context) of build_decision_evaluator")
         return
-    clo = clos[0]
-    p_in = clo["params"][0].get("name")
-    # contexts: KCTX = output argument of the knowledge / decision consumers; ICTX = receiver of set_entry fed by the input-data consumer
-    kctx, ictx = set(), set()
-    for c, par in find_hir(clo["body"], lambda x: x.get("k") in ("MethodCall", "Call") and (x.get("callee") or "") in CONSUMERS):
-        kind = CONSUMERS[c["callee"]]
-        args = ([c["recv"]] if c.get("k") == "MethodCall" else []) + list(c.get("args", []))
-        if kind != "input-data":
-            ln = local_name(args[-1])
-            if ln:
-                kctx.add(ln)
+    OVERWRITE = "dmntk_feel::context::FeelContext::overwrite"
+    results = {B + "input_data::InputDataEvaluator::evaluate": "required-input-values"}
+    outputs = {B + "business_knowledge_model::BusinessKnowledgeModelEvaluator::evaluate": (4, "knowledge-results"),
+               B + "decision_service::DecisionServiceEvaluator::evaluate_as_function_definition": (3, "knowledge-results"),
+               B + "decision::DecisionEvaluator::evaluate": (4, "decision-results")}
+    t2 = taint.Taint(F, is_source=lambda p: results.get(p), is_sink=lambda p: None,
+                     sanitiser=lambda p: p in CONSUMERS or p == OVERWRITE,
+                     arg_source=lambda p: outputs.get(p),
+                     param_source=lambda n, i: "caller-input" if n == evals[0] and i == 2 else None,
+                     dest_sink=lambda ty: "scope" if ty == "dmntk_feel::scope::Scope" else None)
+    t2.analyse(name)
+    got = t2.sinks.get(("scope", 0), set())
+    if not t2.sink_sites.get("scope"):
+        rep.undecided(r2, "decision:context", "no call producing a dmntk_feel::scope::Scope was found in the decision evaluator")
+    else:
+        probs = []
+        if "caller-input" in got:
+            probs.append("the caller's input context flows into the scope of the decision logic other than through FeelContext::overwrite (existing keys only) or the evaluators of "
+                         "required inputs / decisions / knowledge: entries that are not required become visible to the logic")
+        for lab, what in (("required-input-values", "required inputs"), ("knowledge-results", "required knowledge (knowledge models, decision services)"), ("decision-results", "required decisions")):
+            if lab not in got:
+                probs.append("the values of the %s do not reach the scope of the decision logic" % what)
+        if probs:
+            rep.violation(r2, "decision:context", "; ".join(probs), FILE_DEC)
         else:
-            for p in reversed(par):
-                hit = [local_name(s["recv"]) for s, _ in find_hir(p, lambda x: x.get("k") == "MethodCall" and (x.get("callee") or "").endswith("FeelContext::set_entry"))]
-                if hit:
-                    ictx.update(x for x in hit if x)
-                    break
-    probs = []
-    if len(kctx) != 1 or len(ictx) != 1:
-        probs.append("cannot identify one knowledge context and one input context (found %s / %s)" % (sorted(kctx), sorted(ictx)))
+            rep.ok(r2, "decision:context", "scope receives %s; the caller's context only through overwrite / evaluators" % sorted(got))
+    # the override of knowledge / decision results by the caller's input data (overwrite) is present
+    ow = [c for c, _ in find_hir(h["body"], lambda x: x.get("k") == "MethodCall" and x.get("callee") == OVERWRITE)]
+    if ow:
+        rep.ok(r2, "decision:override", "%d overwrite call(s)" % len(ow))
     else:
-        K, I = list(kctx)[0], list(ictx)[0]
-        ops = []
-        for c, _ in find_hir(clo["body"], lambda x: x.get("k") == "MethodCall" and re.search(r"FeelContext::(overwrite|zip|extend|merge|append)$", x.get("callee") or "")):
-            ops.append((c["method"], local_name(c["recv"]), local_name(c["args"][0]) if c.get("args") else None, c.get("l")))
-        if ("overwrite", K, p_in) not in [(m, r, a) for m, r, a, _ in ops]:
-            probs.append("the knowledge / decision results (%s) are not overwritten by the caller's input data (%s.overwrite(%s) missing)" % (K, K, p_in))
-        if ("zip", I, K) not in [(m, r, a) for m, r, a, _ in ops]:
-            probs.append("the required inputs (%s) are not combined with the knowledge / decision results by %s.zip(&%s)" % (I, I, K))
-        for m, r, a, line in ops:
-            if a == p_in and m != "overwrite":
-                probs.append("the caller's whole input context is merged in by %s.%s(%s) at line %s: inputs that are not required reach the decision logic" % (r, m, p_in, line))
-            if (m, r, a) not in (("overwrite", K, p_in), ("zip", I, K)):
-                probs.append("unexpected context operation %s.%s(%s) at line %s" % (r, m, a, line)) if a != p_in or m == "overwrite" else None
-        # the scope handed to the logic derives from I only
-        scopes = [st for st, _ in find_hir(clo["body"], lambda x: x.get("k") == "LetStmt" and "e" in x and "Scope" in (F.ty(h, x["p"].get("t")) if x["p"].get("t") is not None else ""))]
-        srcs = {local_name(strip(st["e"]).get("recv") or (strip(st["e"]).get("args") or [{}])[0]) for st in scopes}
-        if not scopes or srcs != {I}:
-            probs.append("the scope of the decision logic is built from %s, expected from the required-input context %s" % (sorted(x for x in srcs if x) or "?", I))
-    if probs:
-        rep.violation(r2, "decision:context", "; ".join(probs), FILE_DEC)
-    else:
-        rep.ok(r2, "decision:context", "scope = %s.zip(%s), %s.overwrite(%s)" % (I, K, K, p_in))
+        rep.undecided(r2, "decision:override", "no FeelContext::overwrite call: whether input data override knowledge / decision results is not decided")
 
 
 def context_ops_meaning(F, rep):
@@ -208,80 +171,76 @@ def context_ops_meaning(F, rep):
 
 # ======================================================================================================
 def decision_service_rule(F, rep):
-    rid = rep.rule("R04.4", "decision service: input decisions run on the caller's input, encapsulated and output decisions on the prepared input; the result is made of the output decisions' values only")
+    rid = rep.rule("R04.4", "decision service: input / encapsulated / output decisions and input data are evaluated for the identifiers of their own lists; input decisions see the caller's input, "
+                            "encapsulated and output decisions the prepared input (caller's input + input decisions' results); the result is made of entries picked from the evaluated context, never the whole of it")
+    import taint
     name = B + "decision_service::build_decision_service_evaluator"
     h = F.hir.get(name)
-    if h is None:
+    if h is None or name not in F.bodies:
         rep.missing_anchor(rid, name)
         return
     FILE = h["file"]
-    clos = [c for c, _ in find_hir(h["body"], lambda x: x.get("k") == "Closure" and len(x.get("params", [])) == 3)]
-    if not clos:
-        rep.missing_anchor(rid, "evaluator closure of the decision service")
+    evals = [n for n, b in F.bodies.items() if b.get("kind") == "closure" and b.get("parent") == name and b["argc"] == 4
+             and "FeelContext" in F.ty(b, b["locals"][2]) and F.ty(b, b["locals"][4]).startswith("&mut") and "FeelContext" in F.ty(b, b["locals"][4])]
+    if len(evals) != 1:
+        rep.missing_anchor(rid, "the evaluator closure (input context, model evaluator, &mut output context) of build_decision_service_evaluator")
         return
-    clo = clos[0]
-    p_in = clo["params"][0].get("name")
-    # which service list each vector holds
-    lists = {}
-    for st, _ in find_hir(h["body"], lambda x: x.get("k") == "LetStmt" and "e" in x and x["p"].get("k") == "Bind"):
-        for mc, _ in find_hir(st["e"], lambda x: x.get("k") == "MethodCall" and x.get("method") in ("input_decisions", "encapsulated_decisions", "output_decisions", "input_data")):
-            lists[st["p"]["name"]] = mc["method"]
     DEC = B + "decision::DecisionEvaluator::evaluate"
-    runs = {}
-    for c, par in find_hir(clo["body"], lambda x: x.get("k") == "MethodCall" and x.get("callee") == DEC):
-        src = None
-        for p in reversed(par):
-            if p.get("k") == "MethodCall" and p.get("method") in ("for_each", "map", "filter_map"):
-                src = local_name(p["recv"])
-                break
-        args = c.get("args", [])
-        runs.setdefault(lists.get(src, src), []).append((local_name(args[1]) if len(args) > 1 else None, local_name(args[3]) if len(args) > 3 else None, c.get("l")))
+    INP = B + "input_data::InputDataEvaluator::evaluate"
+    lists = {"input_decisions", "encapsulated_decisions", "output_decisions", "input_data"}
+    GET = "dmntk_feel::context::FeelContext::get_entry"
+    COERCED = "dmntk_feel::types::FeelType::coerced"
+    tt = taint.Taint(F,
+                     is_source=lambda p: ("list:" + p.split("::")[-1]) if p.startswith("dmntk_model::model::DecisionService::") and p.split("::")[-1] in lists else ("entry" if p == GET else None),
+                     is_sink=lambda p: ("decision", [1, 2]) if p == DEC else ("input-data", [1, 2]) if p == INP else ("coerced", [1]) if p == COERCED else None,
+                     sanitiser=lambda p: p in (DEC, INP, GET),
+                     arg_source=lambda p: (4, lambda arg_ls: {"results-of:" + l[5:] for l in arg_ls[1] if l.startswith("list:")} | {"evaluated-context"}) if p == DEC else None,
+                     param_source=lambda n, i: "caller-input" if n == evals[0] and i == 2 else None)
+    tt.analyse(name)
+    rep.analysed["R04.4 bodies analysed"] = len(tt.analysed)
     probs = []
-    for k in ("input_decisions", "encapsulated_decisions", "output_decisions"):
-        if k not in runs:
-            probs.append("the %s of the service are not evaluated" % k.replace("_", " "))
-    if not probs:
-        ind = runs["input_decisions"][0]
-        enc, out = runs["encapsulated_decisions"][0], runs["output_decisions"][0]
-        if ind[0] != p_in:
-            probs.append("input decisions are evaluated on %s, not on the caller's input data (%s)" % (ind[0], p_in))
-        if enc[0] != out[0] or enc[0] == p_in:
-            probs.append("encapsulated decisions are evaluated on %s and output decisions on %s: both must see the prepared input (input data + input decisions' results)" % (enc[0], out[0]))
-        if enc[1] != out[1]:
-            probs.append("encapsulated and output decisions write their results into different contexts (%s / %s)" % (enc[1], out[1]))
-        evaluated = out[1]
-        # the multi-output result: Value::Context(X) where X is filled only inside an iteration over the output names
-        coerced_args = {local_name(c["args"][0]) for c, _ in find_hir(clo["body"], lambda x: x.get("k") == "MethodCall" and (x.get("callee") or "").endswith("FeelType::coerced") and x.get("args"))}
-        res = []
-        for st, _ in find_hir(clo["body"], lambda x: x.get("k") == "LetStmt" and "e" in x and x["p"].get("k") == "Bind" and x["p"]["name"] in coerced_args):
-            e = strip(st["e"])
-            if e.get("k") == "Call" and (e.get("callee") or "").endswith("values::Value::Context") and e.get("args"):
-                ln = local_name(e["args"][0])
-                if ln:
-                    res.append(ln)
-        if not res:
-            probs.append("no Value::Context(..) result is built for several output decisions")
-        for r in res:
-            if r == evaluated or r == enc[0] or r == p_in:
-                probs.append("the service returns the whole context %s: values of encapsulated decisions (or inputs) leak into the result, which must consist of the output decisions' values only" % r)
-                continue
-            fills = [(c, par) for c, par in find_hir(clo["body"], lambda x: x.get("k") == "MethodCall" and (x.get("callee") or "").endswith("FeelContext::set_entry") and local_name(x["recv"]) == r)]
-            if not fills:
-                continue
-            for c, par in fills:
-                inside = False
-                for p in reversed(par):
-                    if p.get("k") == "MethodCall" and p.get("method") in ("for_each", "map", "filter_map"):
-                        src = local_name(p["recv"])
-                        # output_names is the vector the output decisions' evaluation pushes into
-                        inside = True
-                        break
-                if not inside:
-                    probs.append("the result context %s receives an entry outside the iteration over the output decisions (line %s)" % (r, c.get("l")))
-    if probs:
-        rep.violation(rid, "decision-service", "; ".join(probs), FILE)
+    dec_sites = {k: v for k, v in tt.site_args.items() if k[0] == "decision"}
+    inp_sites = {k: v for k, v in tt.site_args.items() if k[0] == "input-data"}
+    if len(dec_sites) < 3 or not inp_sites:
+        rep.floor(rid, "evaluator call sites reached from the decision service evaluator", len(dec_sites) + len(inp_sites), 4)
+        return
+    by_list = {}
+    for k, a in dec_sites.items():
+        ids = {l[5:] for l in a.get(1, set()) if l.startswith("list:")}
+        for l in ids:
+            by_list.setdefault(l, []).append((k, a, ids))
+    for want in ("input_decisions", "encapsulated_decisions", "output_decisions"):
+        if want not in by_list:
+            probs.append("the %s of the service are not evaluated by the decision evaluator" % want.replace("_", " "))
+    if "input_data" in by_list:
+        probs.append("identifiers of the service's input data are handed to the decision evaluator")
+    for k, a in inp_sites.items():
+        ids = {l[5:] for l in a.get(1, set()) if l.startswith("list:")}
+        if ids != {"input_data"}:
+            probs.append("the input-data evaluator is run for identifiers of %s (expected: the service's input data)" % (sorted(ids) or "no list"))
+    for k, a, ids in by_list.get("input_decisions", []):
+        if "caller-input" not in a.get(2, set()):
+            probs.append("input decisions are not evaluated on the caller's input data (line %s)" % k[2])
+        if any(l.startswith("results-of:") for l in a.get(2, set())):
+            probs.append("input decisions are evaluated on a context that holds decision results (line %s)" % k[2])
+    for want in ("encapsulated_decisions", "output_decisions"):
+        for k, a, ids in by_list.get(want, []):
+            if len(ids) > 1:
+                probs.append("one call evaluates identifiers of several lists %s (line %s)" % (sorted(ids), k[2]))
+            if "results-of:input_decisions" not in a.get(2, set()):
+                probs.append("%s do not see the results of the input decisions: they must be evaluated on the prepared input (line %s)" % (want.replace("_", " "), k[2]))
+    res = tt.sinks.get(("coerced", 1), set())
+    if not tt.sink_sites.get("coerced"):
+        rep.undecided(rid, "decision-service:result", "no FeelType::coerced call was reached: how the result is formed is not decided")
     else:
-        rep.ok(rid, "decision-service", "input decisions on the caller's input; encapsulated + output decisions on the prepared input; result filtered to the output decisions")
+        if "evaluated-context" in res:
+            probs.append("the whole evaluated context flows into the service's result: values of encapsulated decisions leak into the result, which must consist of the output decisions' values only")
+        if "entry" not in res:
+            probs.append("no entry picked from the evaluated context (FeelContext::get_entry) reaches the service's result")
+    if probs:
+        rep.violation(rid, "decision-service", "; ".join(sorted(set(probs))[:5]), FILE)
+    else:
+        rep.ok(rid, "decision-service", "%d decision / %d input-data evaluation sites: own lists, caller's input -> input decisions -> prepared input -> encapsulated + output decisions; result from picked entries" % (len(dec_sites), len(inp_sites)))
 
 
 # ======================================================================================================
@@ -306,35 +265,26 @@ def invocation_rule(F, rep):
         sc = clo["params"][0].get("name")
         n += 1
         body = strip(clo["body"])
-        # statement order inside the closure: positions (pre-order index) of the argument evaluation and of scope.push
+        # order inside the closure (pre-order = evaluation order for straight-line statements): the per-parameter evaluator calls `e(scope)` made inside a loop /
+        # iterator closure, and scope.push
         order = []
 
         def visit(x, parents):
             if x.get("k") == "MethodCall" and (x.get("callee") or "").endswith("scope::Scope::push"):
-                order.append(("push", x.get("l"), strip(x["args"][0]) if x.get("args") else None))
-            elif x.get("k") == "MethodCall" and (x.get("callee") or "").endswith("scope::Scope::set_entry") and local_name(x["recv"]) == sc:
-                order.append(("scope-set", x.get("l"), None))
-            elif x.get("k") == "MethodCall" and x.get("method") in ("for_each", "map") and find_hir(x, lambda y: y.get("k") == "Call" and y.get("callee") is None and
-                                                                                                     strip(y.get("f", {})).get("res") == "local" and [local_name(a) for a in y.get("args", [])] == [sc]):
-                order.append(("args", x.get("l"), None))
+                order.append(("push", x.get("l")))
+            elif x.get("k") == "Call" and x.get("callee") is None and strip(x.get("f", {})).get("res") == "local" and [local_name(a) for a in x.get("args", [])] == [sc]:
+                looped = any(p.get("k") == "Loop" or (p.get("k") == "Closure" and p is not clo) for p in parents)
+                order.append(("args" if looped else "call", x.get("l")))
             return True
         from facts import walk_hir
         walk_hir(body, visit)
         kinds = [o[0] for o in order]
         key = "invocation:%s" % fn
-        probs = []
         if "args" not in kinds or "push" not in kinds:
-            probs.append("argument evaluation or scope.push not found (shape not recognised: %s)" % kinds)
-        else:
-            if kinds.index("args") > kinds.index("push"):
-                probs.append("the binding / parameter expressions are evaluated after the parameter context was pushed: a formula sees earlier parameters instead of the caller's variables of the same name")
-            if "scope-set" in kinds:
-                probs.append("parameters are written into the scope entry by entry (scope.set_entry) instead of being collected into a fresh context first")
-            pushed = order[kinds.index("push")][2]
-            if pushed is not None and not (pushed.get("k") == "Path" and pushed.get("res") == "local"):
-                probs.append("the context pushed for the callee is not the one the arguments were collected in")
-        if probs:
-            rep.violation(rid, key, "; ".join(probs), "%s:%s" % (h["file"], clo.get("l")))
+            rep.undecided(rid, key, "per-parameter evaluation in a loop or scope.push not found in %s (events: %s)" % (fn, kinds))
+        elif max(i for i, k in enumerate(kinds) if k == "args") > kinds.index("push"):
+            rep.violation(rid, key, "binding / parameter expressions are evaluated after the parameter context was pushed: a formula sees the parameters instead of the caller's variables of the same name",
+                          "%s:%s" % (h["file"], clo.get("l")))
         else:
             rep.ok(rid, key, "arguments evaluated in the caller's scope, then the parameter context is pushed")
     rep.floor(rid, "invocation-style evaluators", n, 2)
